@@ -24,6 +24,15 @@ CHECKS = {
         note="conditioning from a finite-difference Jacobian at the point; declared constants: cubic quadratic_threshold/eps, UMNN bisection, Sigmoid clamp; at kinks either one-sided log-det is accepted",
         ref="DESIGN.md 4/C02",
     ),
+    "C09": dict(
+        technique="bounded-exhaustive product exploration of the real spline functions on sorted grids concentrated on knots, ulp neighbours, end-points and the tail junction; invariant oracles (monotone, continuous, pinned end-points, exact containment, identity in tails)",
+        text="All four spline families x bin counts 1..5 x three boxes and four tail bounds (1 .. 1000) x parameter patterns (all-zero up to strongly non-uniform) x float64/float32 x both "
+        "directions are evaluated on a sorted grid holding every knot with its +-1..3 ulp neighbours, 8 (thorough 24) points per bin, the end-points and the tail junction with "
+        "neighbours and points outside; outputs must be non-decreasing (strictly for separated points), continuous across knots and at the junction, map end-points to end-points, "
+        "stay inside [bottom,top] exactly, and be the bitwise identity with zero log-det outside the tail bound.",
+        note="64 ulp(scale)(1+slope) rounding allowance (x16 in the inverse direction; declared eps for the cubic inverse); float32 only for patterns up to scale 3",
+        ref="DESIGN.md 4/C09",
+    ),
     "C10": dict(
         technique="stateless exhaustive exploration of all operation histories up to a depth on the real objects (replay from the empty history) + explicit-state BFS with exact state hashing to the fixpoint; oracle = uncached twin rebuilt from state_dict after every observing step",
         text="All histories over a 12-letter (thorough: 14) operation alphabet up to depth 4 (thorough: 5, and 6 on a 9-letter alphabet) are executed on "
